@@ -641,6 +641,21 @@ example : ¬ InFindingRegion kWitness stWitness (.cpuAffinity (some [9])) := by
   rintro ⟨_, h, _⟩; have := h 9 (by simp); simp [kWitness] at this
 example : InFindingRegion kWitness stWitness (.cpuAffinity (some [2])) := ⟨by decide, by decide, by decide⟩
 example : cfgRepaired.einvalValueError = true := rfl
+
+/-- proof obligation on the translator's fact (fix aebc260 landed): after the diagnosis loop an
+    EINVAL of `sched_setaffinity` is turned into ValueError; dropping that breaks this theorem -/
+theorem cfg_einval_is_valueError : cfg.einvalValueError = true := by decide
+
+/-- **C18_invalid_cpus.** The full statement (only nonexistent / ineligible CPUs → ValueError,
+    nothing changed), for the code as it is now, in every context. -/
+theorem C18_invalid_cpus : C18_invalid_cpus_FullX cfg :=
+  C18_invalid_cpus_repaired cfg cfg_einval_is_valueError
+
+/-- **C18_refines_code.** The refinement without any excluded region, for the code as it is now. -/
+theorem C18_refines_code (k : Kernel) (pid : Nat) (st : PState) (x : Ctx) (req : Req) (o : Out) (k' : Kernel)
+    (hpid : pid ≠ 0) (hst : k.procs pid = some st) (hwf : WF k st)
+    (hs : Spec.expect k pid st req = .promised o k') : stepX cfg k pid x req = (o, k') :=
+  C18_refines_any_context cfg cfg_good cfg_einval_is_valueError k pid st x req o k' hpid hst hwf hs
 example : fitsCLong (-1) = true ∧ fitsCLong 5 = true ∧ toU64 (-1) > toU64 5 := by decide
 example : fitsCInt 16 = true ∧ ((16 : Int) < 0 ∨ (16 : Int) ≥ 16) := by decide
 
